@@ -42,7 +42,7 @@ def run(ctx, rep):
               'NumPy >= 2: integrate.quad / float() refuse a size-1 array where a scalar is required')
     rep.notes.append('C10 PARTIAL: decides the validation path of fit (range checks on both columns, tau = element 0 of kendalltau, '
                      'NaN refusal, calibration), validate-after-assign of theta, the admissible sets, who may write theta/tau and '
-                     'the scalar contract of the Frank calibration; that the three tau->theta formulas invert the tau maps is numeric and not decided.')
+                     'the scalar contract of the Frank calibration; D7 evaluates the two closed-form calibrations on intervals of tau (refutation of tau(theta(tau)) = tau, proof of admissibility); the Frank calibration is numeric and not decided.')
     d1(ctx, rep)
     d2(ctx, rep)
     d3(ctx, rep)
@@ -50,6 +50,74 @@ def run(ctx, rep):
     d5(ctx, rep)
     d5_pure(ctx, rep)
     d6(ctx, rep)
+    d7(ctx, rep)
+
+
+# Kendall's tau of the family as a function of theta, as stated by the property, written so that theta occurs once
+# (the interval image is then exact): Clayton theta/(theta+2) = 1 - 2/(theta+2), Gumbel 1 - 1/theta.
+def _tau_clayton(th):
+    from ..ivkind import IV, add, div, sub
+    return sub(IV(1.0), div(IV(2.0), add(th, IV(2.0))))
+
+
+def _tau_gumbel(th):
+    from ..ivkind import IV, div, sub
+    return sub(IV(1.0), div(IV(1.0), th))
+
+
+CALIB = {'copulas.bivariate.clayton.Clayton': (_tau_clayton, 'theta/(theta+2)', 0.0, float('inf')),
+         'copulas.bivariate.gumbel.Gumbel': (_tau_gumbel, '1 - 1/theta', 1.0, float('inf'))}
+
+
+def d7(ctx, rep):
+    """Interval abstract interpretation of the closed-form calibrations over a partition of tau in (0, 1)."""
+    from ..absint import TOP
+    from ..ivkind import IV, evaluate_attrs
+    rep.rule('D7.calib', 'closed-form compute_theta (Clayton, Gumbel) evaluated on intervals of tau: the family\'s Kendall tau of the '
+             'returned theta meets the interval it came from (refutation only) and theta lies in the admissible set (proved); '
+             'Frank calibrates with a numeric solver and is not decided')
+    prog = ctx.prog
+    n_cells = 200 if ctx.thorough else 50
+    cuts = [0.001 + (0.998 * i) / n_cells for i in range(n_cells + 1)]
+    n = 0
+    for q, (tau_of, formula, lo_adm, hi_adm) in CALIB.items():
+        cls = prog.cls(q)
+        fn = cls.lookup('compute_theta')
+        if fn is None:
+            raise AnalysisError(f'anchor vanished: {q}.compute_theta')
+        n += 1
+        refuted = und = proved_dom = 0
+        first = None
+        for a, b in zip(cuts, cuts[1:]):
+            box = IV(a, b)
+            alts, _ = evaluate_attrs(ctx, cls, 'compute_theta', {'tau': box})
+            for th, definite in alts:
+                if not isinstance(th, IV):
+                    und += 1
+                    first = first or f'tau in {box}: result not an interval ({th})'
+                    continue
+                if th.nan == 0 and th.lo >= lo_adm - 1e-12 and th.hi <= hi_adm:
+                    proved_dom += 1
+                elif definite and (th.nan == 2 or th.hi < lo_adm - 1e-9):
+                    rep.bad('D7.calib', fn, fn.node.name, f'for tau in {box} the returned theta lies in {th}, outside the admissible set '
+                            f'[{lo_adm:g}, {hi_adm:g}]', construct=f'{cls.name}.compute_theta: admissible')
+                    refuted += 1
+                    break
+                back = tau_of(th) if th.nan != 2 else th
+                if definite and isinstance(back, IV) and (back.nan == 2 or back.lo > b + 1e-9 or back.hi < a - 1e-9):
+                    rep.bad('D7.calib', fn, fn.node.name, f'for tau in {box} the returned theta lies in {th}, whose Kendall tau {formula} lies in '
+                            f'{back}: the calibration does not invert the family\'s tau map', construct=f'{cls.name}.compute_theta: inverts {formula}')
+                    refuted += 1
+                    break
+            if refuted:
+                break
+        if not refuted:
+            if und:
+                rep.undecided('D7.calib', fn, fn.node.name, f'{und} of {len(cuts) - 1} tau cells not evaluated: {first}', construct=f'{cls.name}.compute_theta: inverts {formula}')
+            else:
+                rep.ok('D7.calib', fn, fn.node.name, f'no tau cell of {len(cuts) - 1} in (0.001, 0.999) refutes tau(theta(tau)) = tau; theta admissible on {proved_dom} path results',
+                       construct=f'{cls.name}.compute_theta: inverts {formula}')
+    rep.floor('D7.calib', 'closed-form calibrations', n, 2)
 
 
 def d1(ctx, rep):
